@@ -275,6 +275,48 @@ def check(run):
                           {'workbook': wd, 'kind': 'exports-differ', 'nodes': sorted(set(x1) ^ set(x2))})
     except Exception as ex:
         run.violation('export/import of the regression workbook raised %s' % type(ex).__name__, {'witness': 'known_witnesses/c09_blank_listing.json'})
+    # ---- (5) the exported text of random trees, on the characters (theorem XL.C09.export_text_reparses) ---------------------------
+    # trees over integers, cell names, plain strings, the binary operators, signs, %, calls; the MODEL prints `render` of the
+    # tree; for the shapes of the theorem (class rwf) the model reads that text back as the tree - that is the theorem, checked
+    # here on the executable - and the implementation re-exports exactly that text
+    def gen_ct(depth):
+        k = rnd.random()
+        if depth <= 0 or k < 0.25:
+            kind = rnd.choice('ncs')
+            if kind == 'n':
+                return 'N' + rnd.choice(['0', '1', '7', '42', '007', '1000', '9'])
+            if kind == 'c':
+                return 'C' + rnd.choice(['A', 'B', 'Z', 'AB', 'XFC', 'T', 'F', 'E', 'TRU', 'FAL', 'R', 'C', 'RC']) + '.' + rnd.choice(['1', '2', '10', '99', '1048575'])
+            return 'S' + enc(rnd.choice(['', 'x', 'a b', 'x+1', '#N/A', 'TRUE', '1,2', 'A1:B2', '(', '  ']))
+        if k < 0.65:
+            return 'B' + rnd.choice(G.BINOPS) + ' ' + gen_ct(depth - 1) + ' ' + gen_ct(depth - 1)
+        if k < 0.8:
+            return rnd.choice(['M', 'P']) + ' ' + gen_ct(depth - 1)
+        if k < 0.9:
+            return '% ' + gen_ct(depth - 1)
+        n_ = rnd.randint(0, 3)
+        return 'F' + rnd.choice(['SUM', 'MAX', 'IF', 'AND', 'CONCATENATE', 'ABS', 'G', 'ROUND']) + ' %d' % n_ + ''.join(' ' + gen_ct(depth - 1) for _ in range(n_))
+    rreq, rcodes = [], []
+    for i in range(300 if quick else 10000):
+        code = gen_ct(rnd.randint(1, 5))
+        rreq.append('rtext ' + code); rcodes.append(code)
+    n_rwf = 0
+    for code, ans in zip(rcodes, model(rreq)):
+        parts = ans.split(' ')
+        cls, text, mres = parts[0], dec(parts[1]), ' '.join(parts[2:])
+        mres = ('ok ' + dec(mres[3:])) if mres.startswith('ok ') else mres
+        case = {'text': text, 'stream': 'render-text', 'tree_code': code, 'class': cls, 'model': mres}
+        run.count(1, text, code.count('B') + code.count('M') + code.count('P') + code.count('%') >= 2, 'render-text/' + cls)
+        if cls != 'rwf':
+            continue          # sign runs, %% and -x%: known findings sign-run / double-percent, replayed on their witnesses below
+        n_rwf += 1
+        if mres != 'ok ' + text[1:]:
+            run.disagree('the model reads the exported text %s as %s (theorem export_text_reparses)' % (text, mres), case)
+        e2 = expr_of(text)
+        if e2 != text[1:]:
+            run.violation('the exported text %s is exported again as %s: export -> import -> export is not a fixed point' % (text, e2),
+                          dict(case, reexport=e2))
+    run.extra['render_text_requests'] = {'all': len(rreq), 'of_the_theorem_class': n_rwf}
     # known-finding witnesses
     e1 = expr_of('=(A1%)%')
     run.replay_witness('double-percent', e1 == 'A1%%' and expr_of('=' + e1) is None, {'witness': '=(A1%)%', 'export': e1})
